@@ -99,6 +99,25 @@ def run_history(case):
                     e2e.append(e)
                     if not m.header.is_request():
                         vs.append(V("a request carries the R flag", "not-a-request", f"step {step}"))
+                elif k == "conn-cycle":
+                    # a connection of this process ends (disconnect / reset / reconnect) between two request creations: the
+                    # process-wide registries must survive it (identifiers are unique for the process, not per connection)
+                    import types
+                    from bromelia.setup import DiameterAssociation
+                    assoc = DiameterAssociation(types.SimpleNamespace(watchdog_timeout=30), None)
+
+                    class _T:
+                        is_connected = True
+
+                        def close(self):
+                            self.is_connected = False
+                    assoc.transport = _T()
+                    assoc.end_to_end_identifiers.extend(x.hex() for x in e2e[-2:])
+                    assoc.close()
+                    reg1 = (len(DiameterRequest.hop_by_hop_identifiers), len(DiameterRequest.end_to_end_identifiers))
+                    if reg1 != reg0 or fake.calls != calls0:
+                        vs.append(V("closing a connection never consumes or forgets identifiers of the process", "consumes/conn-cycle",
+                                    f"step {step}: registries {reg0}->{reg1}, urandom calls {fake.calls - calls0}"))
                 else:
                     hv, ev = op.get("hbh", 0), op.get("e2e", 0)
                     hdr = DiameterHeader(command_code=272, application_id=4, hop_by_hop=hv, end_to_end=ev)
@@ -140,7 +159,7 @@ def run_case(case):
 
 idv = st.sampled_from([0, 1, 2**31 - 1, 2**31, 2**32 - 1, 0x10000001, 7])
 op = st.one_of(
-    st.sampled_from([{"op": "req"}, {"op": "req"}, {"op": "ulr"}, {"op": "cer"}, {"op": "ccr"}, {"op": "ans"}]),
+    st.sampled_from([{"op": "req"}, {"op": "req"}, {"op": "ulr"}, {"op": "cer"}, {"op": "ccr"}, {"op": "ans"}, {"op": "conn-cycle"}]),
     st.builds(lambda k, h, e: {"op": k, "hbh": h, "e2e": e}, st.sampled_from(["req_hdr", "ans_hdr", "msg"]), idv, idv),
 )
 
@@ -168,6 +187,10 @@ def _collect(shard, seed, n):
             f.append("explicit-header-or-answer")
         if any(o["op"] in ("ulr", "cer", "ccr") for o in case["ops"]):
             f.append("typed-request")
+        ks = [o["op"] for o in case["ops"]]
+        if "conn-cycle" in ks and any(k in ("req", "ulr", "cer", "ccr") for k in ks[:ks.index("conn-cycle")]) and \
+                any(k in ("req", "ulr", "cer", "ccr") for k in ks[ks.index("conn-cycle"):]):
+            f.append("connection-closed-between-requests")
         col.record(case, vs, nontrivial=repeated and n_req >= 2, classes=f)
 
     common.hyp_collect(cases(), body, n, seed)
@@ -184,7 +207,7 @@ def main(ctx):
         ctx.required_classes = []
     for path, rec in common.load_replays(PID):
         col.record(rec["case"], run_case(rec["case"]), nontrivial=True, classes=["replay"])
-    ctx.required_classes += ["source-repeated-a-value", "explicit-header-or-answer", "typed-request"]
+    ctx.required_classes += ["source-repeated-a-value", "explicit-header-or-answer", "typed-request", "connection-closed-between-requests"]
     ctx.assumptions = ["the random source is bromelia.base.os.urandom, substituted by the harness; registries are cleared at the start of "
                        "each history (one history = one process lifetime)"]
 
